@@ -59,9 +59,22 @@ def _judge_one(case):
     if not pair.is_valid:
         raise Violation("rejects-valid-translucent", f"ColorPair({t!r}, {b!r}) is invalid: {pair.errors}")
     # background: opaque -> as read by O-CSS; translucent -> exact blend over white within 1.5
-    bq = _exact_fg(b)
     white = (255, 255, 255)
-    if bq[3] == 1:
+    lib_parsed_bg = isinstance(b, (tuple, list)) and any(not isinstance(v, int) or isinstance(v, bool) for v in b)
+    if lib_parsed_bg:
+        # unit-float / numeric-string tuples are library-specific spellings: what colour they denote is taken from the
+        # library's own stand-alone parse; that the TEXT is composited over exactly that colour is what is judged
+        from cm_colors import Color
+
+        alone = Color(b)
+        if not alone.is_valid or alone.rgb != pair.bg.rgb:
+            raise Violation("bg-differs-from-standalone-parse", f"background {b!r} parses to {alone.rgb} alone but to {pair.bg.rgb} inside the pair")
+        bq = (F(alone.rgb[0]), F(alone.rgb[1]), F(alone.rgb[2]), F(1))
+    else:
+        bq = _exact_fg(b)
+    if lib_parsed_bg:
+        pass
+    elif bq[3] == 1:
         bg_opts = ocss.read_input_set(b) if isinstance(b, str) else {tuple(int(x) for x in bq[:3])}
         if pair.bg.rgb not in bg_opts:
             return {"skip": "bg-parsed-differently(C07)"}
@@ -108,7 +121,7 @@ def _judge_one(case):
     nontrivial = 0 < a < 1 and bg_rgb != white and tuple(int(x) for x in fq[:3]) != bg_rgb if all(x.denominator == 1 for x in fq[:3]) else (0 < a < 1 and bg_rgb != white)
     acls = "a=0" if a == 0 else ("a=1" if a == 1 else ("a~0" if a < F(1, 1000) else ("a~1" if a > F(999, 1000) else "a-mid")))
     return {"nt": (str(case["text"]), str(case["bg"])) if nontrivial else None,
-            "cls": [f"spell:{case['tkind']}", acls, "bg-translucent" if bq[3] != 1 else "bg-opaque", "fix" if case.get("fix") else "construct"],
+            "cls": [f"spell:{case['tkind']}", acls, "bg-translucent" if bq[3] != 1 else ("bg-lib-tuple" if lib_parsed_bg else "bg-opaque"), "fix" if case.get("fix") else "construct"],
             "sample": {"text": case["text"], "bg": case["bg"], "composite": list(got), "exact": [round(float(x), 3) for x in exact]}}
 
 
@@ -120,6 +133,12 @@ def strategy(draw):
     if draw(st.integers(0, 9)) == 0:
         barg, bkind, _, _ = draw(gc.translucent(bg))
         bkind = "translucent:" + bkind
+    elif draw(st.integers(0, 7)) == 0:
+        # the library's other tuple spellings of an opaque colour: unit floats, numeric strings
+        if draw(st.booleans()):
+            barg, bkind = gc.enc(tuple(round(c / 255.0, draw(st.sampled_from([2, 3, 6]))) for c in bg)), "float-tuple"
+        else:
+            barg, bkind = gc.enc(tuple(str(c) for c in bg) if draw(st.booleans()) else [str(c) for c in bg]), "str-tuple"
     else:
         barg, bkind, _ = draw(gc.spell(bg, allow_translucent=False))
     case = {"text": targ, "bg": barg, "tkind": tkind, "bkind": bkind, "large": draw(st.booleans())}
